@@ -31,7 +31,8 @@ machine-checked yet (open problem). -/
 private theorem pair_of_snd {α β} (x : α × β) (b : β) (h : x.2 = b) : x = (x.1, b) := by
   cases x; simp_all
 
-private theorem keepCustom_coll (ns : List String) : ∀ nodes, (keepCustom nodes (.collection ns)).2 = .collection ns := by
+private theorem keepCustom_coll (wl : Option (List String)) (ns : List String) :
+    ∀ nodes, (keepCustom wl nodes (.collection ns)).2 = .collection ns := by
   intro nodes
   induction nodes with
   | nil => rfl
@@ -47,7 +48,7 @@ theorem printDirectives_state_fixed (o : Opts) (apps : Apps) (p : String) (ns : 
   · by_cases h2 : (apps.get p).isEmpty = true
     · simp [h1, h2]
     · simp only [h1, h2, if_false, Bool.false_eq_true]
-      rw [pair_of_snd _ _ (keepCustom_coll ns (apps.get p))]
+      rw [pair_of_snd _ _ (keepCustom_coll o.whitelist ns (apps.get p))]
 
 /-! #### the lift through the state-passing layout functions -/
 
@@ -145,15 +146,25 @@ theorem print_pure : PrintPureStatement initialCollection := by
 theorem member_collection (ns : List String) (n : String) :
     (PrinterState.collection ns).member n = (ns.contains n, .collection ns) := rfl
 
+/-- which directive nodes are printed: not specified, and on the whitelist if one was given -/
+def keepPred (wl : Option (List String)) (ns : List String) (d : DirApp) : Bool :=
+  !ns.contains d.name && onWhitelist wl d.name
+
 /-- the directive filter is a pure function of the names when the state is a collection, and leaves the state
     as it was: whatever calls came before, the same directives are printed -/
-theorem print_pure_partial (ns : List String) (nodes : List DirApp) :
-    keepCustom nodes (.collection ns) = (nodes.filter (fun d => !ns.contains d.name), .collection ns) := by
+theorem print_pure_partial (wl : Option (List String)) (ns : List String) (nodes : List DirApp) :
+    keepCustom wl nodes (.collection ns) = (nodes.filter (keepPred wl ns), .collection ns) := by
   induction nodes with
   | nil => rfl
   | cons d ds ih =>
-    simp only [keepCustom, PrinterState.member, ih, List.filter]
-    cases ns.contains d.name <;> simp
+    simp only [keepCustom, PrinterState.member, ih]
+    by_cases h : keepPred wl ns d = true
+    · have h' := h
+      unfold keepPred at h'
+      rw [if_pos h', List.filter_cons, if_pos h]
+    · have h' := h
+      unfold keepPred at h'
+      rw [if_neg h', List.filter_cons, if_neg h]
 
 /-! ### today's code: the state is a generator — 2-call refutation witness (finding H1) -/
 
@@ -163,14 +174,14 @@ def depNode : DirApp := { name := "deprecated" }
     the SAME call again: the exhausted generator no longer contains it and it is printed as a custom
     directive (1 printed) — next to the special-cased ` @deprecated`. -/
 theorem print_pure_refuted_today :
-    (keepCustom [depNode] initialGenerator).1.length = 0 ∧
-    (keepCustom [depNode] (keepCustom [depNode] initialGenerator).2).1.length = 1 := by
+    (keepCustom none [depNode] initialGenerator).1.length = 0 ∧
+    (keepCustom none [depNode] (keepCustom none [depNode] initialGenerator).2).1.length = 1 := by
   decide
 
 /-- with the fix the same two calls agree -/
 theorem print_pure_witness_fixed :
-    (keepCustom [depNode] initialCollection).1.length = 0 ∧
-    (keepCustom [depNode] (keepCustom [depNode] initialCollection).2).1.length = 0 := by
+    (keepCustom none [depNode] initialCollection).1.length = 0 ∧
+    (keepCustom none [depNode] (keepCustom none [depNode] initialCollection).2).1.length = 0 := by
   decide
 
 /-- a membership test on the generator CONSUMES it -/
